@@ -1558,6 +1558,9 @@ def rw_zip_to_index(func, k):
                     break
                 q_ = _par.get(q_)
             N = _static_len(scope, n.iter) if all(isinstance(a, ast.Name) for a in n.iter.args) else None
+            whole_ = getattr(Ctx, 'whole_func', None)
+            if scope is func and whole_ is not None and getattr(whole_, 'name', None) == getattr(func, 'name', None):
+                scope = whole_          # definitions before the window that is being rewritten
             if N is not None:
                 sites.append((n, N))
             elif len(n.iter.args) == 2:
@@ -3034,28 +3037,75 @@ def rw_unpack_first(func, k):
     return True
 
 
+def _roots_unchanged_from(func, roots, lineno):
+    """no statement written at or after line `lineno` rebinds one of the names `roots`, stores into / deletes from an object reached through
+    them, or calls a mutating method on such an object"""
+    for y in ast.walk(func):
+        if getattr(y, 'lineno', 0) < lineno:
+            continue
+        if isinstance(y, ast.Name) and y.id in roots and isinstance(y.ctx, (ast.Store, ast.Del)):
+            return False
+        if isinstance(y, (ast.Subscript, ast.Attribute)) and isinstance(y.ctx, (ast.Store, ast.Del)) and {w.id for w in ast.walk(y.value) if isinstance(w, ast.Name)} & roots:
+            return False
+        if isinstance(y, ast.Call) and isinstance(y.func, ast.Attribute) and y.func.attr in MUTATORS and {w.id for w in ast.walk(y.func.value) if isinstance(w, ast.Name)} & roots:
+            return False
+    return True
+
+
 def rw_use_alias(func, k):
-    """a = E ; ... E ...   ->   a = E ; ... a ...      (E a name / attribute / element that is not rebound in between; all occurrences of one statement)"""
+    """a = E ; ... E ...   ->   a = E ; ... a ...      (E a name / attribute / element / len(name) whose operands are not rebound or mutated from the
+    definition of a on; all occurrences of one statement)"""
     aliases = []
     for owner, fld, blk in blocks_of(func):
         for i, st in enumerate(blk):
-            if isinstance(st, ast.Assign) and len(st.targets) == 1 and isinstance(st.targets[0], ast.Name) and isinstance(st.value, (ast.Attribute, ast.Subscript)) and _is_pure(st.value):
+            if isinstance(st, ast.Assign) and len(st.targets) == 1 and isinstance(st.targets[0], ast.Name) and (
+                    (isinstance(st.value, (ast.Attribute, ast.Subscript)) and _is_pure(st.value))
+                    or (isinstance(st.value, ast.Call) and isinstance(st.value.func, ast.Name) and st.value.func.id == 'len' and len(st.value.args) == 1 and not st.value.keywords
+                        and isinstance(st.value.args[0], ast.Name))):
                 aliases.append((blk, i, st))
     sites = []
+    whole = getattr(Ctx, 'whole_func', None)
+    if whole is not None and whole is not func and getattr(whole, 'name', None) == getattr(func, 'name', None) and func.body:
+        # aliases defined at the top level of the function before the window that is being rewritten
+        first = min(getattr(b_, 'lineno', 0) for b_ in func.body)
+        known = {id(a_[2]) for a_ in aliases}
+        for st in whole.body:
+            if getattr(st, 'lineno', first) >= first:
+                break
+            if isinstance(st, ast.Assign) and len(st.targets) == 1 and isinstance(st.targets[0], ast.Name) and id(st) not in known and (
+                    (isinstance(st.value, (ast.Attribute, ast.Subscript)) and _is_pure(st.value))
+                    or (isinstance(st.value, ast.Call) and isinstance(st.value.func, ast.Name) and st.value.func.id == 'len' and len(st.value.args) == 1 and not st.value.keywords
+                        and isinstance(st.value.args[0], ast.Name))):
+                aliases.append((func.body, -1, st))
     for blk, i, st in aliases:
         text = ast.dump(st.value)
         name = st.targets[0].id
-        if sum(1 for n in ast.walk(func) if isinstance(n, ast.Name) and n.id == name and isinstance(n.ctx, ast.Store)) != 1:
+        scope_ = whole if i == -1 else func
+        if sum(1 for n in ast.walk(scope_) if isinstance(n, ast.Name) and n.id == name and isinstance(n.ctx, ast.Store)) != 1 or (i == -1 and any(
+                isinstance(n, ast.Name) and n.id == name and isinstance(n.ctx, ast.Store) for n in ast.walk(func))):
+            continue
+        roots = {w.id for w in ast.walk(st.value) if isinstance(w, ast.Name)} - {'len'}
+        from_line = st.lineno + 1 if getattr(st, 'end_lineno', st.lineno) == st.lineno else st.end_lineno + 1
+        if not _roots_unchanged_from(scope_, roots, from_line) or (i == -1 and not _roots_unchanged_from(func, roots, 0)):
             continue
         for st2 in blk[i + 1:]:
             for sub in ([st2] if not any(isinstance(getattr(st2, f, None), list) and f in _BODY_FIELDS for f in st2._fields) else [x for x in ast.walk(st2) if isinstance(x, ast.stmt) and not any(isinstance(getattr(x, f, None), list) and f in _BODY_FIELDS for f in x._fields)]):
                 occ = [n for n in ast.walk(sub) if isinstance(n, type(st.value)) and ast.dump(n) == text and isinstance(getattr(n, 'ctx', ast.Load()), ast.Load)]
                 if occ:
                     sites.append((sub, occ, name))
+            # headers of compound statements (loop iterables, conditions) read the same value
+            for x in ast.walk(st2):
+                if isinstance(x, (ast.For, ast.While, ast.If)):
+                    hdr = x.iter if isinstance(x, ast.For) else x.test
+                    occ = [n for n in ast.walk(hdr) if isinstance(n, type(st.value)) and ast.dump(n) == text and isinstance(getattr(n, 'ctx', ast.Load()), ast.Load)]
+                    if occ:
+                        sites.append((hdr, occ, name))
     if k >= len(sites):
         return False
     sub, occ, name = sites[k]
     for n in occ:
+        if n is sub:
+            return True        # the header is the expression itself: handled through its owner below
         replace_node(sub, n, fix(ast.Name(id=name, ctx=ast.Load()), n))
     return True
 
@@ -3313,7 +3363,7 @@ def _clone(node):
         return copy.deepcopy(node)
 
 
-ENABLERS = {rw_subscripted_literal: [rw_extract_temp], rw_unpack_name: [rw_extend_literal, rw_inline_temp], rw_extend_literal: [rw_unpack_name, rw_inline_temp], rw_loop_to_comp: [rw_inline_temp], rw_keyword_to_positional: [rw_extract_temp, rw_keyword_to_positional], rw_list_call_to_comp: [rw_comp_to_loop], rw_zip_to_index: [rw_extract_temp], rw_comp_to_loop: [rw_enumerate_to_index, rw_zip_to_index, rw_split_append_concat, rw_append_comp_to_loop]}
+ENABLERS = {rw_subscripted_literal: [rw_extract_temp], rw_unpack_name: [rw_extend_literal, rw_inline_temp], rw_extend_literal: [rw_unpack_name, rw_inline_temp], rw_loop_to_comp: [rw_inline_temp], rw_keyword_to_positional: [rw_extract_temp, rw_keyword_to_positional], rw_list_call_to_comp: [rw_comp_to_loop], rw_zip_to_index: [rw_extract_temp, rw_use_alias], rw_comp_to_loop: [rw_enumerate_to_index, rw_zip_to_index, rw_split_append_concat, rw_append_comp_to_loop]}
 REMOVALS = (rw_drop_tail_return, rw_drop_tail_continue, rw_drop_noop_pass, rw_fuse_loops)
 
 
